@@ -25,26 +25,44 @@ fn segments() -> Vec<(usize, usize)> {
     vec![(0, 0), (1, 5459), (5460, 5460), (5461, 16381), (16382, 16382), (16383, 16383)]
 }
 
+/// The same ownership can be written in several shapes on the wire: all ranges of a node in one
+/// entry (`addr n r1 .. rn`), or one entry per range (`addr 1 r1 addr 1 r2`, what a node looks
+/// like after it imported a range next to the one it owned), in ascending or descending order.
+const SHAPES: [&str; 3] = ["one-entry-per-node", "one-entry-per-range-ascending", "one-entry-per-range-descending"];
+
 fn layout_args(epoch: u64, owners: &[Owner]) -> Cmd {
+    layout_args_shaped(epoch, owners, 0)
+}
+
+fn layout_args_shaped(epoch: u64, owners: &[Owner], shape: usize) -> Cmd {
     let segs = segments();
     let mut c = cmd(&["UMCTL", "SETCLUSTER", "v2", &epoch.to_string(), "NOFLAG", "c1"]);
     let ranges = |o: Owner| -> Vec<String> { segs.iter().zip(owners).filter(|(_, w)| **w == o).map(|((a, b), _)| format!("{}-{}", a, b)).collect() };
-    for (o, addr) in [(Owner::L1, L1), (Owner::L2, L2)] {
-        let r = ranges(o);
-        if !r.is_empty() {
-            c.push(addr.as_bytes().to_vec());
-            c.push(r.len().to_string().into_bytes());
-            c.extend(r.into_iter().map(|s| s.into_bytes()));
+    let emit = |out: &mut Cmd, addr: &str, mut r: Vec<String>| {
+        if r.is_empty() {
+            return;
         }
+        if shape == 0 {
+            out.push(addr.as_bytes().to_vec());
+            out.push(r.len().to_string().into_bytes());
+            out.extend(r.into_iter().map(|s| s.into_bytes()));
+        } else {
+            if shape == 2 {
+                r.reverse();
+            }
+            for x in r {
+                out.push(addr.as_bytes().to_vec());
+                out.push(b"1".to_vec());
+                out.push(x.into_bytes());
+            }
+        }
+    };
+    for (o, addr) in [(Owner::L1, L1), (Owner::L2, L2)] {
+        emit(&mut c, addr, ranges(o));
     }
     let mut peer: Cmd = vec![];
     for (o, addr) in [(Owner::X, X), (Owner::Y, Y)] {
-        let r = ranges(o);
-        if !r.is_empty() {
-            peer.push(addr.as_bytes().to_vec());
-            peer.push(r.len().to_string().into_bytes());
-            peer.extend(r.into_iter().map(|s| s.into_bytes()));
-        }
+        emit(&mut peer, addr, ranges(o));
     }
     if !peer.is_empty() {
         c.push(b"PEER".to_vec());
@@ -74,18 +92,19 @@ async fn probe_layouts(layouts: Vec<Vec<Owner>>, keys: Arc<Vec<Vec<u8>>>, all_sl
     let opts = ProxyOpts { active_redirection, ..Default::default() };
     w.add_proxy(P, &opts);
     let mut epoch = 0u64;
-    for owners in layouts {
+    let cases: Vec<(Vec<Owner>, usize)> = layouts.into_iter().enumerate().flat_map(|(i, l)| if all_slots { vec![(l, i % SHAPES.len())] } else { (0..SHAPES.len()).map(|s| (l.clone(), s)).collect::<Vec<_>>() }).collect();
+    for (owners, shape) in cases {
         epoch += 1;
         acc.layouts += 1;
         if epoch % 512 == 0 {
             w.add_proxy(P, &opts); // restart with empty state now and then
         }
-        let sc = layout_args(epoch, &owners);
+        let sc = layout_args_shaped(epoch, &owners, shape);
         let r = w.client(P, &sc).await;
         w.settle().await;
         let has_local = owners.iter().any(|o| matches!(o, Owner::L1 | Owner::L2));
         if show_resp(&r) != "+OK" {
-            add(&mut acc, "setcluster-rejected", format!("layout {:?}: SETCLUSTER -> {}", owners, show_resp(&r)), json!({"owners": format!("{:?}", owners)}));
+            add(&mut acc, "setcluster-rejected", format!("layout {:?}: SETCLUSTER -> {}", owners, show_resp(&r)), json!({"owners": format!("{:?}", owners), "wire_shape": SHAPES[shape]}));
             continue;
         }
         let _ = has_local;
@@ -114,7 +133,7 @@ async fn probe_layouts(layouts: Vec<Vec<Owner>>, keys: Arc<Vec<Vec<u8>>>, all_sl
             let ev: Vec<Event> = w.events_since(mark).into_iter().filter(|e| e.kind == "redis").collect();
             let rs = show_resp(&reply);
             *acc.outcomes.entry(match owner { Owner::L1 | Owner::L2 => "local", Owner::X | Owner::Y => "peer", Owner::Nobody => "uncovered" }.to_string()).or_default() += 1;
-            let ctx = || json!({"owners": format!("{:?}", owners), "slot": slot, "key": show(key), "reply": rs, "backend_events": ev.iter().map(|e| format!("{} {}", e.at, show_cmd(&e.cmd))).collect::<Vec<_>>()});
+            let ctx = || json!({"owners": format!("{:?}", owners), "wire_shape": SHAPES[shape], "slot": slot, "key": show(key), "reply": rs, "backend_events": ev.iter().map(|e| format!("{} {}", e.at, show_cmd(&e.cmd))).collect::<Vec<_>>()});
             match owner {
                 Owner::L1 | Owner::L2 => {
                     let want = if owner == Owner::L1 { L1 } else { L2 };
@@ -315,7 +334,7 @@ pub fn run(cli: &Cli) -> (Value, Vec<Violation>) {
     let cov = json!({
         "evaluations": kcov["evaluations"].as_u64().unwrap_or(0) as usize + probes,
         "distinct_nontrivial": kcov["distinct_nontrivial"].as_u64().unwrap_or(0) as usize + probes,
-        "rule": "keys: see key part; routing: one real proxy, every assignment of the 6 boundary segments {0},{1..5459},{5460},{5461..16381},{16382},{16383} to owners (local nodes, peers, nobody) installed through a real UMCTL SETCLUSTER, probed at first/last slot of every segment (GET + CLUSTER KEYSLOT), all 16384 slots on a sample of layouts, 20 multi-key shapes; each (layout, slot) probe is distinct",
+        "rule": "keys: see key part; routing: one real proxy, every assignment (x 3 wire shapes: one entry per node, one entry per range ascending / descending) of the 6 boundary segments {0},{1..5459},{5460},{5461..16381},{16382},{16383} to owners (local nodes, peers, nobody) installed through a real UMCTL SETCLUSTER, probed at first/last slot of every segment (GET + CLUSTER KEYSLOT), all 16384 slots on a sample of layouts, 20 multi-key shapes; each (layout, slot) probe is distinct",
         "key_part": kcov,
         "layouts": nl,
         "routing_probes": probes,
